@@ -140,4 +140,12 @@ PROPS["C12"] = {
     "assumptions": ["task identities are pairwise distinct"],
 }
 
+PROPS["C13"] = {
+    "parts": [{"family": "lin", "admits": "LinCorr.admits_lin", "model_obs": None, "race": True, "timeout": 900}],
+    "level_text": "placeholder",
+    "level_note": _T,
+    "explanation": "",
+    "assumptions": [],
+}
+
 NOT_APPLICABLE = {}
